@@ -407,12 +407,18 @@ def main(argv):
     known = [(f["property"], f["tag"]) for f in kf.get("findings", []) if f.get("status", "finding") == "finding"]
     violations = []
     seen = set()
+    known_out = []
     for (tag, unit, d) in cl["failing"]:
         if (pid, tag) in known:
             if ("k", tag) not in seen:
                 f = next(f for f in kf["findings"] if f["property"] == pid and f["tag"] == tag)
                 print("KNOWN-FINDING: property=%s %s %s" % (pid, tag, f.get("what", "")))
                 seen.add(("k", tag))
+                rec = {"tag": tag, "where": f.get("where"), "what": f.get("what"), "failing_clause": next((clause_text(results[unit], ln) for ln in (d.get("unit_lines") or []) if unit in results and 1 <= ln <= len(results[unit].lines) and tag in results[unit].lines[ln - 1]), None), "verus_message": d.get("message")}
+                if tier == "thorough":
+                    # the finding is re-demonstrated on a binary built from the current tree
+                    rec["witness"] = run_scenario(tag)
+                known_out.append(rec)
             continue
         if tag in seen:
             continue
@@ -467,6 +473,7 @@ def main(argv):
         "assumptions": [props.ASSUME[a] for a in P.get("assume", [])] + P.get("not_covered", []),
         "wall_s": round(time.time() - t0, 2),
         "violations": len(violations),
+        "known_findings_reported": known_out,
     }
     evdir = os.environ.get("ZV_EVIDENCE", os.path.join(VERIF, "evidence"))
     os.makedirs(evdir, exist_ok=True)
